@@ -176,10 +176,13 @@ def _stateful_functions(mod):
             for name, f in fns.items():
                 if name in out:
                     continue
+                if any(isinstance(n, (ast.Yield, ast.YieldFrom)) for n in ast.walk(f)):
+                    continue  # calling a generator function advances nothing
                 for n in ast.walk(f):
-                    if isinstance(n, (ast.Yield, ast.YieldFrom)) or (isinstance(n, ast.Call) and (
-                            norm(n.func) in ("next",) or (isinstance(n.func, ast.Attribute) and n.func.attr in ("send", "throw"))
-                            or (isinstance(n.func, ast.Name) and n.func.id in out))):
+                    if isinstance(n, ast.Call) and (
+                            (norm(n.func) == "next" and n.args and isinstance(n.args[0], ast.Name))
+                            or (isinstance(n.func, ast.Attribute) and n.func.attr in ("send", "throw"))
+                            or (isinstance(n.func, ast.Name) and n.func.id in out)):
                         out.add(name)
                         changed = True
                         break
